@@ -336,12 +336,13 @@ func overlayFor(spec *Spec, h *Harness) (map[string][]byte, error) {
 		if err != nil {
 			return nil, err
 		}
-		i := strings.Index(f, "__")
+		bn := filepath.Base(f) // a spec may share a file of another property's directory (../Cxx/<file>)
+		i := strings.Index(bn, "__")
 		if i < 0 {
 			return nil, fmt.Errorf("harness file %s: want <pkgdir>__name.go", f)
 		}
-		dir := strings.ReplaceAll(f[:i], "-", "/")
-		ov[filepath.Join(repoDir, dir, "zz_verif_"+f[i+2:])] = b
+		dir := strings.ReplaceAll(bn[:i], "-", "/")
+		ov[filepath.Join(repoDir, dir, "zz_verif_"+bn[i+2:])] = b
 	}
 	for _, rw := range h.Rewrites {
 		p := filepath.Join(repoDir, rw.File)
